@@ -106,3 +106,27 @@ Theorem C14_kernels_generated :
   (forall p now, K_PublicKeysChangeProposal_IsExpired (gprop_of p) now = (1800 <? now - pp_start p)).
 Proof. split; [exact gen_MajorityCount|split; [exact gen_DecideResult|exact gen_IsExpired]]. Qed.
 Print Assumptions C14_kernels_generated.
+
+From Sge Require Import Proofs.GenOvm.
+(* the end-block decision procedure of x/ovm (finishPubkeysChangeProposals with finishPubkeysChangeProposal, KeyVault.SetLeader,
+   utils.PopStrAtIndex, DecideResult, IsExpired), generated from the source as a function on the state it reaches through the keeper,
+   computes the model's ovm_finish on every well-formed proposal list: the same proposals stay active, the same key vault is installed.
+   The theorems above about the model's end block (vault well-formedness over all histories, the threshold) are statements about this code. *)
+Theorem C14_endblock_generated : forall ps fin vault now,
+  NoDup (map pp_id ps) -> Forall prop_wf ps -> Forall (fun p => pp_status p = PS_ACTIVE \/ pp_status p = PS_FINISHED) ps -> zlen vault <= 1000 ->
+  exists st', K_ovm_finishPubkeysChangeProposals (ovm_state (filter is_active ps) fin vault now) = Some st' /\
+              S_ovm_Active st' = map gprop_of (filter is_active (fst (ovm_finish ps now (zlen vault) vault))) /\
+              S_ovm_Vault st' = kv_of (snd (ovm_finish ps now (zlen vault) vault)) /\ S_ovm_Now st' = now.
+Proof. exact gen_ovm_endblock. Qed.
+Print Assumptions C14_endblock_generated.
+
+(* finding D10 exhibited on the generated code itself (not only on the model): votes of keys removed by an earlier approval of the same
+   end block still count *)
+Theorem C14_removed_keys_on_generated_code :
+  let votes := [(0, 2); (1, 2); (2, 2)] in
+  let p1 := {| pp_id := 1; pp_creator := 0; pp_keys := [4; 5; 6; 7]; pp_leader := 0; pp_start := 100; pp_votes := votes; pp_status := PS_ACTIVE; pp_result := 0; pp_finish := 0 |} in
+  let p2 := {| pp_id := 2; pp_creator := 0; pp_keys := [8; 9; 10; 11]; pp_leader := 0; pp_start := 100; pp_votes := votes; pp_status := PS_ACTIVE; pp_result := 0; pp_finish := 0 |} in
+  option_map (fun st => (G_KeyVault_PublicKeys (S_ovm_Vault st), map G_PublicKeysChangeProposal_Result (S_ovm_Finished st)))
+             (K_ovm_finishPubkeysChangeProposals (ovm_state [p1; p2] [] [0; 1; 2; 3] 200)) = Some ([8; 9; 10; 11], [1; 1]).
+Proof. exact d10_on_generated_code. Qed.
+Print Assumptions C14_removed_keys_on_generated_code.
